@@ -174,6 +174,7 @@ SCALABLE_KINDS = ("Dense", "Diagonal", "ScalarMul")
 # tolerances (relative to 1 + max |x|, after undoing the scale): measured errors of the unchanged tree / of seeded changes
 # are listed in ASSUMPTIONS
 PINV_TOL = {("f64", "CG"): 1e-6, ("f64", "dense"): 1e-9, ("f32", "CG"): 1e-4, ("f32", "dense"): 1e-5}
+PINV_TOL_TREE_CG = 1e-8       # composite operators (f64 / c128): unchanged tree <= 5e-15, unguarded reverse-order rule >= 0.2
 
 
 def build_op(kind, params, A, cplx, prec="f64", sc=1.0):
@@ -183,6 +184,9 @@ def build_op(kind, params, A, cplx, prec="f64", sc=1.0):
     n = A.shape[1]
     if kind == "Dense":
         return cola.ops.Dense(A)
+    if kind == "Tree":                       # lazy composite operator built through cola's own constructors / API
+        from .. import build
+        return build.build(params["tree"])
     if kind == "Identity":
         return cola.ops.Identity((n, n), dt)
     if kind == "ScalarMul":
@@ -241,6 +245,10 @@ def observe_pinv(job):
         at = {"source": "catalog_scaled" if variant else "catalog", "kind": job["kind"], "alg": algname,
               "shape_class": shape_class(m, n), "dtype": DTNAME[(prec, cplx)], "scale": scn, "m": m, "n": n}
         tol = PINV_TOL[(prec, "CG" if algname == "CG" else "dense")]
+        if job["kind"] == "Tree":
+            at.update(composite=job["params"]["tree"]["k"], pattern=job.get("pattern") or "none",
+                      factors=[t["k"] for t in job["params"]["tree"]["a"]])
+            tol = PINV_TOL_TREE_CG if algname == "CG" else tol
         for mode in ("single", "multi"):
             items = [(j, B[:, j], X[:, j], X0[:, j]) for j in range(B.shape[1])] if mode == "single" else [(-1, B, X, X0)]
             for j, b, xs, xs0 in items:
@@ -450,6 +458,113 @@ def observe_numeric(spec):
     return viol, n_eval, meas
 
 
+# ------------------------------------------------------------------ slowly decaying spectra: min(m, n) in {24, 40, 60}
+# A = U diag(r, r-1, .., 1) V^H with U = H(v) P, V = H(w) P' exactly orthogonal (Householder reflector of a small-integer
+# vector times a permutation; complex: unit phases on the rows): lsqfam.slow_factors.  TLC validates the generator on reduced
+# instances (catalog cases HP:6x4, 4x6, 5x5, real and complex: unitarity, reconstruction, best rank-k); for the large
+# instances A and the best rank-k approximation are evaluated from the same exact integer factors (integer arithmetic below
+# 2^53 in float64, one division by the common denominator), i.e. they are correctly rounded values of the exact matrices.
+# Predicate: Sigma = the k largest singular values within SLOW_C_SIG * eps * sigma_1, and U Sigma V^H = best rank-k
+# approximation in Frobenius norm within SLOW_C_FRO * eps * sigma_1^2 / (sigma_k^2 - sigma_{k+1}^2) (relative; the
+# eigenvector perturbation bound of the Gram matrix on which Lanczos works).
+SLOW_KS = (1, 3, 8)
+SLOW_C_SIG = 100.0
+SLOW_C_FRO = 1000.0
+EPS64 = 2.0 ** -52
+
+
+def slow_specs(tier, seed):
+    specs = []
+    for r in (24, 40, 60):
+        for shp in ("tall", "wide", "square"):
+            m, n = {"tall": (r + r // 2, r), "wide": (r, r + r // 2), "square": (r, r)}[shp]
+            for cplx in (False, True):
+                if cplx and tier == "quick" and (r, shp) not in ((24, "tall"), (40, "wide"), (60, "square")):
+                    continue
+                specs.append({"m": m, "n": n, "complex": cplx, "seed": (seed * 1000003 + 15485863 + 31 * m + n) % (2**31 - 1)})
+    return specs
+
+
+def make_slow(spec):
+    m, n, cplx = spec["m"], spec["n"], spec["complex"]
+    (Nu, du), (Nv, dv), sig = lsqfam.slow_factors(m, n, cplx)
+    dt = np.complex128 if cplx else np.float64
+    Nu, Nv, s = np.array(Nu, dtype=dt), np.array(Nv, dtype=dt), np.array(sig, dtype=np.float64)
+    r = len(sig)
+    den = float(du * dv)
+
+    def part(k):                # integers (Gaussian integers) below 2^53: exact
+        return ((Nu[:, :k] * s[:k]) @ Nv[:, :k].conj().T) / den
+    return part(r), {k: part(k) for k in SLOW_KS}, s
+
+
+def slow_algs(r, cplx, seed):
+    from cola.linalg.decompositions.decompositions import Lanczos
+    rng = np.random.RandomState(seed)
+    v = rng.randn(r) + 2.0
+    if cplx:
+        v = v + 1j * rng.randn(r)
+    return (("Lanczos()", "default", lambda: Lanczos()),
+            ("Lanczos(max_iters=r)", "r", lambda: Lanczos(start_vector=v, max_iters=r, tol=1e-12)),
+            ("Lanczos(max_iters=r+5)", "r+5", lambda: Lanczos(max_iters=r + 5, tol=1e-12)))
+
+
+def observe_slow(spec):
+    cola = _cola()
+    from cola.linalg.svd.svd import svd
+    A, best, s = make_slow(spec)
+    m, n, cplx = spec["m"], spec["n"], spec["complex"]
+    r = min(m, n)
+    viol, n_eval, meas = [], 0, []
+    for k in SLOW_KS:
+        for algname, mi, mk in slow_algs(r, cplx, spec["seed"]):
+            n_eval += 1
+            case = f"svd(slow {m}x{n}{' complex' if cplx else ''} sigma={r}..1, k={k}, {algname})"
+            at = {"source": "slow_spectrum", "shape_class": shape_class(m, n), "dtype": "c128" if cplx else "f64",
+                  "alg": "Lanczos", "max_iters": mi, "k": k, "r": r, "full": False, "which": "LM", "m": m, "n": n,
+                  "declared": "none"}
+            rp = {"slow": spec}
+
+            def V(clause, detail):
+                viol.append(Violation(PROP, clause, case, dict(at), detail, replay=rp))
+            try:
+                with warnings.catch_warnings():
+                    warnings.simplefilter("ignore")
+                    with np.errstate(all="ignore"):
+                        U, S, Vv = svd(cola.ops.Dense(A), k, "LM", mk())
+                        Ud, Sd, Vd = np.asarray(U.to_dense()), np.asarray(S.to_dense()), np.asarray(Vv.to_dense())
+            except Exception as e:  # noqa: BLE001
+                viol.append(Violation(PROP, "exception", case, dict(at, **common.exc_info(e)),
+                                      f"{type(e).__name__}: {str(e)[:140]}", replay=rp))
+                continue
+            if Sd.shape != (k, k) or Ud.shape != (m, k) or Vd.shape != (n, k):
+                V("count", f"asked for k={k} of {r} triplets: U {Ud.shape}, Sigma {Sd.shape}, V {Vd.shape}")
+                continue
+            if not (np.all(np.isfinite(Ud)) and np.all(np.isfinite(Sd)) and np.all(np.isfinite(Vd))):
+                V("nonfinite", "factors contain NaN/Inf")
+                continue
+            eo = max(np.abs(Ud.conj().T @ Ud - np.eye(k)).max(), np.abs(Vd.conj().T @ Vd - np.eye(k)).max())
+            if eo > 1e-9:
+                V("orthonormal_U" if np.abs(Ud.conj().T @ Ud - np.eye(k)).max() > 1e-9 else "orthonormal_V",
+                  f"max |U^H U - I|, |V^H V - I| = {eo:.3g}")
+            d = np.diag(Sd)
+            if np.abs(Sd - np.diag(d)).max() > 1e-9 * s[0] or np.abs(np.imag(d)).max() > 1e-9 * s[0] or np.real(d).min() < 0:
+                V("sigma_nonneg", f"Sigma is not a non-negative real diagonal matrix: diag = {np.round(d, 6).tolist()}")
+            d = np.sort(np.real(d))[::-1]
+            e_sig = float(np.abs(d - s[:k]).max() / s[0])
+            gap = s[k - 1] ** 2 - s[k] ** 2
+            unit = EPS64 * s[0] ** 2 / gap
+            e_fro = float(np.linalg.norm(Ud @ Sd @ Vd.conj().T - best[k]) / np.linalg.norm(best[k]))
+            meas.append(("slow", r, e_sig / EPS64, e_fro / unit))
+            if e_sig > SLOW_C_SIG * EPS64:
+                V("sigma_values", f"singular values {np.round(d, 9).tolist()} are not the {k} largest {s[:k].tolist()}: max deviation "
+                  f"{e_sig:.3g} sigma_1 = {e_sig / EPS64:.3g} eps sigma_1 (tolerance {SLOW_C_SIG:g} eps sigma_1)")
+            if e_fro > SLOW_C_FRO * unit:
+                V("rank_k", f"||U Sigma V^H - best rank-{k} approximation||_F / ||best||_F = {e_fro:.3g} = {e_fro / unit:.3g} "
+                  f"eps sigma_1^2/gap (tolerance {SLOW_C_FRO:g} eps sigma_1^2/gap = {SLOW_C_FRO * unit:.3g})")
+    return viol, n_eval, meas
+
+
 # ------------------------------------------------------------------ run / replay
 ASSUMPTIONS = [
     "NumPy backend only (float64 / complex128; pinv also float32 / complex64); the harness-side backend shim "
@@ -479,36 +594,65 @@ ASSUMPTIONS = [
     f"<= tol*||x|| with tol = {NUM_C:g}*eps*cond^2, eps = 2^-23; sigma_min and cond come from NumPy's SVD and enter only "
     "the tolerance.  Measured over 360 operators: repaired tree <= 1.07 (lsq) / 0.97 (min-norm) eps cond^2, unrepaired "
     "jitter <= 10.6, ridge inside CG >= 144 eps cond^2",
+    "composite operators (pinv catalog, kind Tree): lazy Product (incl. B @ C) of rectangular exact leaves in the patterns "
+    "tall@tall, wide@wide, wide@tall, square@tall, wide@square (+ tall@square, square@wide, square@square, three factors), "
+    "BlockDiag and Kronecker of rectangular leaves, scalar multiples, sums, nested; built through harness/build.py from the "
+    "operator tree whose Expr.tla!Denote is the catalog matrix (CompositeOK); expected x = TLC's minimum-norm least-squares "
+    "solution of the composite's own dense matrix; TLC certifies (ReverseOrderFact) that the reverse-order candidate Fn^+..F1^+ b "
+    "differs from it on every witness pattern, so no rule of the specification relies on (BC)^+ = C^+ B^+; only full-rank "
+    "composites (so BlockDiag / Kronecker combine tall with tall/square or wide with wide); tolerance 1e-9 (1e-8 CG); "
+    "measured: unchanged tree <= 5e-15, unguarded reverse-order Product rule 0.23 .. 0.74",
+    "slowly decaying spectra (harness-side predicate, generator validated by TLC on reduced instances HP:*): A = U diag(r..1) V^H, "
+    "r = min(m, n) in {24, 40, 60}, exactly orthogonal Householder x permutation factors with small-integer structure; A and the "
+    "best rank-k approximation are correctly rounded values of the exact rational matrices; k in {1, 3, 8}; Lanczos() with the "
+    "library defaults (max_iters = 1000, tol = 1e-6, keyed random start), Lanczos(seeded start vector, max_iters = r, tol = "
+    f"1e-12) and Lanczos(max_iters = r + 5, tol = 1e-12); Sigma within {SLOW_C_SIG:g} eps sigma_1 of the k largest singular "
+    f"values, ||U Sigma V^H - best_k||_F / ||best_k||_F <= {SLOW_C_FRO:g} eps sigma_1^2 / (sigma_k^2 - sigma_k+1^2) (about 4e-12 "
+    "..7e-12); measured: unchanged tree <= 4 eps sigma_1 and <= 1e-14; a Krylov basis capped at max(2k+1, 20) gives "
+    "1.8e-9 .. 0.7 (best rank-k) and up to 0.09 sigma_1",
     "larger random matrices (up to 120 x 90): expected values are the harness's own construction U Sigma V^H and NumPy's "
     "pseudo-inverse (harness-side predicates, not TLC); Lanczos only for k <= 3 on matrices with min(m,n) <= 12",
     "TLC's printed values must equal an exact integer mirror of the formulas (harness/lsqfam.py), else machinery failure",
 ]
 JVM_SMALL = "-XX:ParallelGCThreads=2 -XX:CICompilerCount=2 -XX:TieredStopAtLevel=1"
-N_NEG = 7       # negative controls: 2 svd, 1 pinv, 2 declared self-adjoint, 2 wrong scaling laws
+N_NEG = 9       # negative controls: 2 svd, 1 pinv, 2 declared self-adjoint, 2 wrong scaling laws, 2 composite
 
 
-def run_models(tier):
-    """All TLC runs (two models, seven negative controls) concurrently.  Returns the jobs and statistics."""
-    from concurrent.futures import ThreadPoolExecutor
-    scases, sdrop = lsqfam.svd_cases_x(tier)
-    pcases, pdrop = lsqfam.pinv_cases_x(tier)
-    # nine small JVMs at once: without these limits their JIT / GC threads (one set per core each) thrash the machine
-    old_opts = os.environ.get("JAVA_TOOL_OPTIONS")
-    os.environ["JAVA_TOOL_OPTIONS"] = ((old_opts + " ") if old_opts else "") + JVM_SMALL
-    try:
-        with ThreadPoolExecutor(max_workers=6) as ex:
-            fs = ex.submit(lsqfam.run_svd_model_x, PROP + "s", scases)
-            fp = ex.submit(lsqfam.run_pinv_model_x, PROP + "p", pcases)
-            negs = [ex.submit(lsqfam.svd_negative_control, PROP, scases), ex.submit(lsqfam.pinv_negative_control, PROP, pcases),
-                    ex.submit(lsqfam.svd_selfadjoint_negative_control, PROP, scases),
-                    ex.submit(lsqfam.pinv_law_negative_control, PROP, pcases)]
-            (sout, sstats), (pout, pstats) = fs.result(), fp.result()
-            neg = [f.result() for f in negs]
-    finally:
-        if old_opts is None:
+class TlcPhase:
+    """All TLC runs (two models, nine negative controls) as concurrent JVMs.  `mains()` waits for the two models,
+    `negatives()` for the negative controls (they may finish while the conformance phase is already running)."""
+    def __init__(self, scases, pcases):
+        from concurrent.futures import ThreadPoolExecutor
+        # eleven small JVMs at once: without these limits their JIT / GC threads (one set per core each) thrash the machine
+        self.old_opts = os.environ.get("JAVA_TOOL_OPTIONS")
+        os.environ["JAVA_TOOL_OPTIONS"] = ((self.old_opts + " ") if self.old_opts else "") + JVM_SMALL
+        self.ex = ThreadPoolExecutor(max_workers=7)
+        self.fs = self.ex.submit(lsqfam.run_svd_model_x, PROP + "s", scases)
+        self.fp = self.ex.submit(lsqfam.run_pinv_model_y, PROP + "p", pcases)
+        self.negs = [self.ex.submit(lsqfam.svd_negative_control, PROP, scases),
+                     self.ex.submit(lsqfam.pinv_negative_control, PROP, pcases),
+                     self.ex.submit(lsqfam.svd_selfadjoint_negative_control, PROP, scases),
+                     self.ex.submit(lsqfam.pinv_law_negative_control, PROP, pcases),
+                     self.ex.submit(lsqfam.pinv_composite_negative_control, PROP, pcases)]
+
+    def mains(self):
+        return self.fs.result(), self.fp.result()
+
+    def negatives(self):
+        try:
+            return [f.result() for f in self.negs]
+        finally:
+            self.close()
+
+    def close(self):
+        self.ex.shutdown(wait=True)
+        if self.old_opts is None:
             os.environ.pop("JAVA_TOOL_OPTIONS", None)
         else:
-            os.environ["JAVA_TOOL_OPTIONS"] = old_opts
+            os.environ["JAVA_TOOL_OPTIONS"] = self.old_opts
+
+
+def make_jobs(scases, pcases, sout, pout):
     sjobs = []
     for c in scases:
         r = len(c["sig"])
@@ -521,15 +665,31 @@ def run_models(tier):
     for c in pcases:
         mat = c["id"].rsplit("/", 1)[0]
         rec = pout[c["id"]]
-        j = by.setdefault(mat, {"mat": mat, "kind": c["kind"], "params": c["params"], "A": rec["A"], "complex": False, "cols": []})
+        j = by.setdefault(mat, {"mat": mat, "kind": c["kind"], "params": c["params"], "A": rec["A"], "complex": False, "cols": [],
+                                "pattern": c.get("pattern")})
         j["cols"].append({"id": c["id"], "b": rec["b"], "x": rec["x"]})
         j["complex"] = j["complex"] or c["complex"]
     pjobs = []
     for j in by.values():
         for scn, prec in PINV_VARIANTS:
-            if scn != "1" and j["kind"] not in SCALABLE_KINDS:
+            if (scn != "1" and j["kind"] not in SCALABLE_KINDS) or (j["kind"] == "Tree" and (scn, prec) != ("1", "f64")):
                 continue
             pjobs.append(dict(j, scale=scn, prec=prec))
+    return sjobs, pjobs
+
+
+def run_models(tier):
+    """Synchronous form (used by replays / tooling): catalogs, all TLC runs, jobs."""
+    scases, sdrop = lsqfam.svd_cases_y(tier)
+    pcases, pdrop = lsqfam.pinv_cases_y(tier)
+    ph = TlcPhase(scases, pcases)
+    try:
+        (sout, sstats), (pout, pstats) = ph.mains()
+    except BaseException:
+        ph.close()
+        raise
+    neg = ph.negatives()
+    sjobs, pjobs = make_jobs(scases, pcases, sout, pout)
     return sjobs, pjobs, scases, pcases, sstats, pstats, sdrop + pdrop, neg
 
 
@@ -545,6 +705,8 @@ def _work(item):
         return observe_pinv(x) + ([], )
     if kind == "random":
         return observe_random(x) + ([], )
+    if kind == "slow":
+        return observe_slow(x)
     return observe_numeric(x)
 
 
@@ -558,18 +720,36 @@ def _pool(fn, items):
 
 
 def run(tier):
+    from concurrent.futures import ProcessPoolExecutor
     t0 = time.time()
-    sjobs, pjobs, scases, pcases, sstats, pstats, dropped, neg = run_models(tier)
-    if sum(neg) != N_NEG:
-        common.machinery_failure(PROP, f"negative controls: the models rejected {neg} (svd, pinv, self-adjoint, scaling law) "
-                                       f"of {N_NEG} corrupted catalogs")
+    scases, sdrop = lsqfam.svd_cases_y(tier)
+    pcases, pdrop = lsqfam.pinv_cases_y(tier)
+    dropped = sdrop + pdrop
     specs = random_specs(tier, common.seed())
     nspecs = numeric_specs(tier, common.seed())
-    items = [("svd", j) for j in sjobs] + [("pinv", j) for j in pjobs] + [("random", x) for x in specs] + \
-            [("numeric", x) for x in nspecs]
+    sspecs = slow_specs(tier, common.seed())
+    early = [("slow", x) for x in sspecs] + [("random", x) for x in specs] + [("numeric", x) for x in nspecs]
     _cola()                     # import once, before the workers are forked
-    viol, cnt, meas = [], {"svd": 0, "pinv": 0, "random": 0, "numeric": 0}, []
-    for (kind, _), (v, k, ms) in zip(items, _pool(_work, items)):
+    with ProcessPoolExecutor(max_workers=16) as pp:
+        # the first submit forks all workers (fork start method) while this process is still single-threaded; the families
+        # that do not need TLC's output keep them busy while the JVMs run
+        early_f = [pp.submit(_work, it) for it in early]
+        ph = TlcPhase(scases, pcases)
+        try:
+            (sout, sstats), (pout, pstats) = ph.mains()
+        except BaseException:
+            ph.close()
+            raise
+        sjobs, pjobs = make_jobs(scases, pcases, sout, pout)
+        late = [("svd", j) for j in sjobs] + [("pinv", j) for j in pjobs]
+        late_f = [pp.submit(_work, it) for it in late]
+        results = [f.result() for f in early_f + late_f]
+        neg = ph.negatives()
+    if sum(neg) != N_NEG:
+        common.machinery_failure(PROP, f"negative controls: the models rejected {neg} (svd, pinv, self-adjoint, scaling law, composite) "
+                                       f"of {N_NEG} corrupted catalogs")
+    viol, cnt, meas = [], {"svd": 0, "pinv": 0, "random": 0, "numeric": 0, "slow": 0}, []
+    for (kind, _), (v, k, ms) in zip(early + late, results):
         viol += v
         cnt[kind] += k
         meas += ms
@@ -578,16 +758,27 @@ def run(tier):
     for j in sjobs:
         key = shape_class(j["A"]["r"], j["A"]["c"]) + ("/complex" if j["complex"] else "/real")
         shapes[key] = shapes.get(key, 0) + 1
-    worst = {}
+    worst, worst_slow = {}, {}
     for algname, cond, a, b in meas:
-        w = worst.setdefault(f"{algname}/cond={cond}", [0.0, 0.0])
+        if algname == "slow":
+            w = worst_slow.setdefault(f"r={cond}", [0.0, 0.0])
+        else:
+            w = worst.setdefault(f"{algname}/cond={cond}", [0.0, 0.0])
         w[0], w[1] = max(w[0], round(a, 4)), max(w[1], round(b, 4))
     sa_jobs = [j for j in sjobs if j["sa"]]
     cov = {
         "states": sstats["states"] + pstats["states"], "transitions": sstats["transitions"] + pstats["transitions"],
         "traces_validated_against_impl": len(sjobs) + len(pcases),
-        "evaluations": n_svd + n_pinv + n_rand + n_num, "svd_calls": n_svd, "pinv_calls": n_pinv, "random_calls": n_rand,
-        "numeric_calls": n_num,
+        "evaluations": n_svd + n_pinv + n_rand + n_num + cnt["slow"], "svd_calls": n_svd, "pinv_calls": n_pinv,
+        "random_calls": n_rand, "numeric_calls": n_num, "slow_spectrum_calls": cnt["slow"], "slow_spectrum_matrices": len(sspecs),
+        "slow_spectrum_worst": {k: {"sigma_in_eps_sigma1": v[0], "best_rank_k_in_eps_sigma1^2/gap": v[1]}
+                                for k, v in sorted(worst_slow.items())},
+        "slow_spectrum_tolerances": {"sigma_in_eps_sigma1": SLOW_C_SIG, "best_rank_k_in_eps_sigma1^2/gap": SLOW_C_FRO},
+        "pinv_composite_operators": sum(1 for j in pjobs if j["kind"] == "Tree"),
+        "pinv_composite_kinds": sorted({j["params"]["tree"]["k"] for j in pjobs if j["kind"] == "Tree"}),
+        "reverse_order_law_fails_on_catalog": pstats.get("reverse_order_law_fails", {}),
+        "reverse_order_law_witnesses": pstats.get("reverse_order_law_fails_witness", {}),
+        "reverse_order_law_holds_on_patterns": pstats.get("reverse_order_law_holds_on_patterns", []),
         "distinct_nontrivial": sum(1 for j in sjobs if len(j["sig"]) >= 2) + sum(1 for j in pjobs if j["A"]["r"] != j["A"]["c"]),
         "rule": "svd: one TLC state = (matrix, k), replayed with DenseSVD / Auto / Lanczos / Lanczos with surplus iterations "
                 "(declared self-adjoint operators: which = LM and SM, with and without the annotation); "
@@ -626,6 +817,8 @@ def replay(path):
         res = [x for x in res if x.attrs.get("alg") == r["alg"]]
     elif "numeric" in r:
         res, _, _ = observe_numeric(r["numeric"])
+    elif "slow" in r:
+        res, _, _ = observe_slow(r["slow"])
     else:
         res, _ = observe_random(r["random"])
     for x in res:
